@@ -10,8 +10,14 @@ package linter
 //@   pure
 //@   ensures @numeric-compare result <==> (v.Major == 0 || v.Major > other.Major || (v.Major == other.Major && v.Minor >= other.Minor))
 
+//@ spec trimGo(s string) string = ite(hasPrefix(s, "go"), substr(s, 2, len(s)), s)
+//@ spec dotAt(s string) int = indexOf(trimGo(s), ".")
+//@ spec validGoVersion(s string) bool = trimGo(s) == "" || (dotAt(s) >= 0 && !contains(substr(trimGo(s), dotAt(s) + 1, len(trimGo(s))), ".") && atoiOK(substr(trimGo(s), 0, dotAt(s))) && atoiOK(substr(trimGo(s), dotAt(s) + 1, len(trimGo(s)))))
+
 //@ func ParseGoVersion
 //@   prop C15 C19
+//@   assigns nothing
+//@   ensures @valid-iff result1 == nil <==> validGoVersion(version)
 //@   ensures @empty-means-all (version == "" || version == "go") ==> (result1 == nil && result0.Major == 0 && result0.Minor == 0)
 //@   ensures @accepted-numeric forall a string, b string :: (isDigits(a) && isDigits(b) && !contains(a, ".") && !contains(b, ".") && (version == a ++ "." ++ b || version == "go" ++ a ++ "." ++ b)) ==> (result1 == nil && result0.Major == toInt(a) && result0.Minor == toInt(b))
 //@   ensures @needs-one-dot (version != "" && version != "go" && result1 == nil) ==> contains(version, ".")
@@ -23,3 +29,24 @@ package linter
 //@   pure
 //@   ensures @has-tag-iff result <==> (exists k int :: 0 <= k && k < len(info.Tags) && info.Tags[k] == tag)
 //@   loop 1 invariant @not-found-yet forall k int :: (0 <= k && k < $i) ==> info.Tags[k] != tag
+
+//@ func NewContext
+//@   prop C19
+//@   fresh
+//@   ensures @non-nil result != nil
+//@   ensures @fields result.FileSet == fset && result.SizesInfo == sizes && result.TypesInfo != nil
+
+// NewChecker runs the registered constructor closure of the checker: an arbitrary function value.
+// Its contract is assumed (listed in the evidence); constructors that write the shared Context
+// (importShadow sets ctx.Require.PkgObjects) do so before any Check and are outside this frame.
+//@ func NewChecker
+//@   trusted constructor closures are dynamic calls; contract assumed
+//@   fresh
+//@   assigns nothing
+//@   ensures @checker-or-error result1 == nil ==> (result0 != nil && result0.Info == info)
+
+//@ func (*Context).SetGoVersion
+//@   prop C15 C19
+//@   requires c != nil
+//@   requires @version-parses validGoVersion(version)
+//@   assigns c.GoVersion
